@@ -237,10 +237,11 @@ def class_decl(draw, lang, names, enum_types=(), force_member=None):
     # Fortran wrappers come from a generated clone without result (Python / Lua off as in classes.yaml)
     if draw(st.integers(0, 2)) == 0:
         ps = [P("step", "int step", "", "N1", "int")] if draw(st.booleans()) else []
-        # (switched off for Python and Lua through options of its own as in classes.yaml, or left on as in example.yaml)
+        # (switched off for Python through options of its own as in classes.yaml, or left on; a class pointer result
+        #  is outside the Lua subset - classes.yaml switches Lua off for every one of them)
         both = draw(st.booleans())
         methods.append(dict(kind="func", name=cnames.fresh("chain"), rtype="%s *" % name, rattrs="", rrow="Rthis", rT=None,
-                            params=ps, py=both, lua=both, const=False, static=False, options={}, format={},
+                            params=ps, py=both, lua=False, const=False, static=False, options={}, format={},
                             extra={"return_this": True}))
     # classes.rst "Member Variables": public data members get getter / setter functions (only a getter with +readonly)
     members = []
